@@ -9,6 +9,7 @@ import (
 	"strconv"
 	"strings"
 
+	"github.com/tink-crypto/tink-go/v2/daead"
 	dsubtle "github.com/tink-crypto/tink-go/v2/daead/subtle"
 	"github.com/tink-crypto/tink-go/v2/internal/mac/aescmac"
 	"github.com/tink-crypto/tink-go/v2/internal/verifharness/hlib"
@@ -83,6 +84,23 @@ func evalLine(l string) (out string) {
 		}
 		vi := strings.Index("TCR", a[1])
 		id, err := strconv.ParseUint(a[2], 10, 32)
+		if a[1] == "L" && err == nil {
+			// LEGACY exists only for keys of the legacy (key-manager) path, see collide.go: through a one-key keyset
+			ensureStubKM()
+			k, _ := dspec{stub: true, key: key, vi: 2, id: uint32(id)}.build()
+			kh, e := hlib.HandleOf(k)
+			if e != nil {
+				return "err"
+			}
+			d, e := daead.New(kh)
+			if e != nil {
+				return "err"
+			}
+			if t[1] == "siv" {
+				return res(d.EncryptDeterministically(b(3), b(4)))
+			}
+			return rej(d.DecryptDeterministically(b(3), b(4)))
+		}
 		if vi < 0 || err != nil {
 			return "bad-op"
 		}
@@ -158,6 +176,11 @@ func replay(o *hlib.Out, path string) {
 			if strings.HasPrefix(l, "# case") {
 				o.Case()
 			}
+			continue
+		}
+		if strings.HasPrefix(strings.TrimPrefix(l, "!"), "W ") {
+			// keyset-level lines of collide.go need the keyset of their case; its `X siv` / `X sivd` lines are re-evaluated
+			o.Count("replay/skipped-keyset-line")
 			continue
 		}
 		o.Emit(l, evalLine(l), true)
